@@ -30,8 +30,8 @@ def classify(t, f):
         return ('M', 'drain')
     if c == 'std::collections::HashMap::is_empty':
         return ('M', 'is_empty')
-    if c in ('std::collections::HashMap::remove', 'std::collections::HashMap::remove_entry') and 'u64' in str(t.get('arg_tys')):
-        return ('M', 'remove')
+    if c in ('std::collections::HashMap::remove', 'std::collections::HashMap::remove_entry') and ('u64' in str(t.get('arg_tys')) or f.id.startswith('tarpc::util')):
+        return ('M', 'remove')     # the in-flight tables' maps (keyed by the u64 request id), also when reached through a generic helper in util
     return None
 
 
@@ -228,7 +228,9 @@ def _run_job(job):
         exits = set()
         for cellv in job.get('cells', [()]):
             env = (X.A.init(), cellv, frozenset())
-            exits |= set(X.summarize(entry, tuple(STAR for _ in range(entry.argc)), env))
+            from engine.shape import SELFREF
+            args0 = tuple((SELFREF if (i_ == 0 and job.get('acc')) else STAR) for i_ in range(entry.argc))
+            exits |= set(X.summarize(entry, args0, env))
         return {'key': job['key'], 'exits': exits, 'viol': {k: sorted(v) for k, v in X.viol_sites.items()}, 'spin': dict(X.spin), 'stats': dict(X.stats),
                 'unmodelled': dict(X.unmodelled), 'summaries': len(X.memo), 'error': None}
     except Budget as e:
